@@ -37,7 +37,13 @@ def table(args):
 def c13_role(args):
     m, noop = table(args)
     r = args['role']
-    has = m._has_role
+
+    def has(role):
+        # independent reading of the role table: a role is defined iff one of the model's role
+        # patterns (or the top / concept role) matches it entirely
+        return any(re.fullmatch(p, role) is not None for p in list(m.roles) + [m.top_role, m.concept_role])
+    if m._has_role(r) != has(r) or m._has_role(r + '-of') != has(r + '-of'):
+        return 'role table membership of %r or %r is wrong' % (r, r + '-of')
     try:
         c = with_watchdog(lambda: m.canonicalize_role(r), 3)
     except Timeout:
@@ -335,7 +341,7 @@ def ref_errors(m, g):
         return dict(err)
     srcs = {t[0] for t in g.triples}
     for t in g.triples:
-        if not (m._has_role(t[1]) or (t[1].endswith('-of') and m._has_role(t[1][:-3]))):
+        if not (specs.role_defined(m, t[1]) or (t[1].endswith("-of") and specs.role_defined(m, t[1][:-3]))):
             err[t].append('invalid role')
     if not g.top:
         err[None].append('top is not set')
